@@ -76,10 +76,9 @@ theorem ns_recv_F {content : Bytes → Bytes} {master : Impl} (F : FRefines cont
     rcases hs with ⟨ho, ha⟩ | ⟨ho, _⟩
     · simp only [out] at ho
       subst ho
-      simp only [out, next, has_mapK, hh', Bool.false_eq_true, if_false, mapK_ins]
-      have hst : mapK content (ins k v.length inv) = ins k v (mapK content inv) := by
-        rw [mapK_ins, hv]
-      refine ⟨⟨hi, kasc_ins _ _ hK, ?_⟩, StepSpec.exact rfl (by rw [hv]) (fun hQ => (hq hQ).2.2)⟩
+      have hst : mapK content (ins k v.length inv) = next (mapK content inv) (.recv k v) := by
+        simp only [next, has_mapK, hh', Bool.false_eq_true, if_false, mapK_ins, hv]
+      refine ⟨⟨hi, kasc_ins _ _ hK, ?_⟩, StepSpec.exact rfl hst (fun hQ => (hq hQ).2.2)⟩
       intro k' sz hg
       rw [get_ins] at hg
       by_cases hk : k' = k
